@@ -344,7 +344,7 @@ func testValues(attr, ty string) (string, string) {
 }
 
 func runC09(res *Result, tier string, seed int64, replay string) {
-	res.Rule = "EXHAUSTIVE matrix: every body component in a legal context × every attribute of its table × source level {mj-class, tag default, mj-all} with a typed non-default value, the same classes listed in both orders on two elements of one document, three levels at once (the class value equal to the mj-all value, the tag default between them), and every ordered pair of competing levels (winner value V1, loser value V2 ≠ V1); css-class (always accepted) supplied by the tag default, by mj-all and by both, for every component; plus seeded whole documents with heads. Oracle: the document is rewritten by the Spec — the Lean `winner` (driver `res`) is written as the element's own attribute for every (element, attribute) any source defines, the mj-attributes block is dropped — and the rendered <body> must be byte-identical to the body of the original. Non-trivial (informative) = cell whose attribute changes the body at all when set on the element; distinct by (component, attribute, level)"
+	res.Rule = "the attribute store: seeded heads (one to three mj-attributes blocks, mj-all / mj-class / tag entries in any order, attributes defined again later, classes without a name, the name not first) parsed by the real parser, globals.ProcessAttributesFromHead vs the Lean Model Store.build (driver `store`) on every (tag / class, attribute) query; EXHAUSTIVE matrix: every body component in a legal context × every attribute of its table × source level {mj-class, tag default, mj-all} with a typed non-default value, the same classes listed in both orders on two elements of one document, three levels at once (the class value equal to the mj-all value, the tag default between them), and every ordered pair of competing levels (winner value V1, loser value V2 ≠ V1); css-class (always accepted) supplied by the tag default, by mj-all and by both, for every component; plus seeded whole documents with heads. Oracle: the document is rewritten by the Spec — the Lean `winner` (driver `res`) is written as the element's own attribute for every (element, attribute) any source defines, the mj-attributes block is dropped — and the rendered <body> must be byte-identical to the body of the original. Non-trivial (informative) = cell whose attribute changes the body at all when set on the element; distinct by (component, attribute, level)"
 	drv, err := startDriverPool(4)
 	if err != nil {
 		res.Disagree(Violation{Sig: "driver-missing", What: err.Error()})
@@ -395,6 +395,10 @@ func runC09(res *Result, tier string, seed int64, replay string) {
 			check("replay", parseNodeTree(src), true, true)
 		}
 		return
+	}
+	if pool, perr := startDriverPool(4); perr == nil {
+		runC09Store(res, pool, tier, seed)
+		pool.Close()
 	}
 	res.Exhaustive = true
 	count := 0
